@@ -63,6 +63,17 @@ Expected(doc) == IF Accept(doc)
                  ELSE Err
 
 (***************************************************************************)
+(* Entry points.  A document reaches the library through Deserialize::     *)
+(* deserialize (from_str / from_slice / from_reader / from_value) or       *)
+(* through Deserialize::deserialize_in_place (what a container calls when  *)
+(* it reloads its elements), which is handed a destination that already    *)
+(* holds some array `prior`.  The meaning of a document does not depend on *)
+(* the entry point or on the destination:                                  *)
+(***************************************************************************)
+InPlaceResult(prior, doc) == Expected(doc)                 \* on success the destination IS the array the document states
+InPlaceAfterError(place) == place.nc * place.nr = place.n /\ (place.nc = 0 <=> place.nr = 0)   \* on failure: any valid array
+
+(***************************************************************************)
 (* Layer B: the visitor as the code has it (serde.rs): a left-to-right     *)
 (* fold over the fields with three optional slots, duplicate checks on     *)
 (* all three keys, typed value extraction, then the product / length /     *)
